@@ -209,6 +209,9 @@ def run(chk):
         raise AnalysisError('parse_segments: group cursor / reference stack not recognised')
     c08.cursor_sources(chk, ps_, cur_, stk_, 'C03-O')
 
+    from . import codelemmas
+    codelemmas.no_string_ordering(chk, c, 'C03-L')
+
     # ---- U
     pf = ix.func('parser.parse_field')
     ok = False
